@@ -193,7 +193,7 @@ func c13GenMem(t *rapid.T, label string) c13Qty {
 
 type c13Cont struct {
 	Name    string
-	Sidecar bool                                      // init container with restartPolicy=Always
+	Sidecar bool                           // init container with restartPolicy=Always
 	Req     map[corev1.ResourceName]c13Qty // exact model
 	Lim     map[corev1.ResourceName]c13Qty
 }
